@@ -29,6 +29,8 @@ pub fn clusters_from_sparse(mut indices: HashSet<(i32, i32, i32)>) -> Vec<Vec<(i
         to_visit.push(pop_index(&mut indices));
 
         while !to_visit.is_empty() {
+            #[cfg(feature = "verif")]
+            crate::verif::tick();
             let current = to_visit.pop().unwrap();
             working.push(current);
 
